@@ -6,15 +6,6 @@ From Coq Require Import List Arith Bool Lia.
 From PV Require Import Model.Reporter Proofs.Reporter.
 Import ListNotations.
 
-Definition is_warn_op (o : op) : bool := match o with OWarn _ _ => true | _ => false end.
-Definition erase_prog (p : list op) : list op := filter (fun o => negb (is_warn_op o)) p.
-Definition erase_cfg (cfg : config) : config :=
-  {| parent := parent cfg; rep := rep cfg; progs := fun t => erase_prog (progs cfg t) |}.
-Definition is_warn_entry (e : entry) : bool := match e with LWarn => true | _ => false end.
-Definition erase_log (l : list entry) : list entry := filter (fun e => negb (is_warn_entry e)) l.
-Definition is_warn_call (c : rcall) : bool := match c with CWarn _ => true | _ => false end.
-Definition erase_rlog (l : list rcall) : list rcall := filter (fun c => negb (is_warn_call c)) l.
-
 Definition in_warning (p : pc) : bool := match p with PInWarn _ | PWUnlock => true | _ => false end.
 
 (* a thread inside a HandleWarning corresponds to the idle thread that has already dropped it *)
@@ -147,17 +138,29 @@ Proof.
       rewrite (mu_free_sim _ _ S Ef). reflexivity.
     + constructor; simx; try apply S.
       * rewrite upd_same. reflexivity.
-      * apply threads_upd; [apply S|]. unfold erase_thread. rewrite Epc. reflexivity.
+      * apply threads_upd; [apply S|]. close_thread.
   - (* PCheck *)
-    eexists. split.
-    + right. unfold step. rewrite Ht, erase_thread_nw by (rewrite Epc; reflexivity). simx. rewrite Epc. cbv zeta.
-      rewrite !Hh, (sim_ncalls _ _ S). reflexivity.
-    + destruct (herr (hs s 0)) as [e|] eqn:Eh; [|destruct (epos c) eqn:Ep]; inversion H; subst; clear H;
-        constructor; simx; try apply S; try (rewrite (sim_handled _ _ S); reflexivity);
+    assert (Hstep : forall X, step cfg' s' t = X <->
+      match herr (hs s 0) with
+      | Some e => Some (with_thread (with_handled s') t (set_pc (erase_thread (threads s t)) (PUnlock c (Some e))))
+      | None =>
+        if epos c then
+          Some (with_thread (with_call (with_h (with_handled s') 0 {| herr := None; hreported := true |})) t
+                            (set_pc (erase_thread (threads s t)) (PInRep c (ncalls s))))
+        else
+          Some (with_thread (with_plain (with_h (with_handled s') 0 {| herr := Some (EPlain (etag c));
+                                                                      hreported := hreported (hs s 0) |})) t
+                            (set_pc (erase_thread (threads s t)) (PUnlock c (Some (EPlain (etag c))))))
+      end = X).
+    { intros X. unfold step. rewrite Ht. rewrite (erase_thread_nw (threads s t)) at 1 by (rewrite Epc; reflexivity).
+      simx. rewrite Epc. cbv zeta. rewrite <- Ht. rewrite !Hh, (sim_ncalls _ _ S). rewrite Ht. tauto. }
+    destruct (herr (hs s 0)) as [e|] eqn:Eh; [|destruct (epos c) eqn:Ep]; inversion H; subst; clear H;
+      (eexists; split; [right; apply Hstep; reflexivity|]);
+      constructor; simx; try apply S; try (rewrite (sim_handled _ _ S); reflexivity);
         try (rewrite (sim_ncalls _ _ S); reflexivity);
         try (intros h; apply upd_ext; apply Hh);
         try (apply mu_keep; [intros o _ _; rewrite Epc; reflexivity|apply S]);
-        try (apply threads_upd; [apply S|close_thread; rewrite ?(sim_ncalls _ _ S); reflexivity]).
+        try (apply threads_upd; [apply S|close_thread]); try reflexivity.
   - (* PInRep *)
     inversion H; subst; clear H. eexists. split.
     + right. unfold step. rewrite Ht, erase_thread_nw by (rewrite Epc; reflexivity). simx. rewrite Epc. cbv zeta. rewrite !Hh. reflexivity.
@@ -169,17 +172,17 @@ Proof.
   - (* PUnlock *)
     inversion H; subst; clear H. eexists. split.
     + right. unfold step. rewrite Ht, erase_thread_nw by (rewrite Epc; reflexivity). simx. rewrite Epc. reflexivity.
-    + constructor; simx; try apply S.
+    + constructor; simx; try apply S; try reflexivity.
       apply threads_upd; [apply S|close_thread].
   - (* PUnwind *)
     destruct path as [|h rest].
     + (* HandleError returns: the operation in progress is at the head of the program *)
       inversion H; subst; clear H.
-      rewrite Epc in Hcall. destruct (Hcall _ eq_refl) as (rest & Eprog).
+      cbn [pc_call] in Hcall. destruct (Hcall _ eq_refl) as (rest & Eprog).
       eexists. split.
       * right. unfold step. rewrite Ht, erase_thread_nw by (rewrite Epc; reflexivity). simx. rewrite Epc. reflexivity.
       * constructor; simx; try apply S.
-        -- apply mu_keep; [|apply S]. intros o Ho ->. exfalso. eapply Hnown; [rewrite Epc; reflexivity|eassumption|reflexivity].
+        -- apply mu_keep; [|apply S]. intros o Ho ->. exfalso. eapply Hnown; [reflexivity|eassumption|reflexivity].
         -- apply threads_upd; [apply S|]. close_thread.
     + inversion H; subst; clear H. eexists. split.
       * right. unfold step. rewrite Ht, erase_thread_nw by (rewrite Epc; reflexivity). simx. rewrite Epc. rewrite !Hh. reflexivity.
@@ -196,7 +199,7 @@ Proof.
       unfold erase_thread. rewrite Epc. reflexivity.
   - (* PWUnlock: the warning is over *)
     inversion H; subst; clear H. exists s'. split; [left; reflexivity|].
-    assert (Hmu : mu s = Some t) by (apply Hown; rewrite Epc; reflexivity).
+    assert (Hmu : mu s = Some t) by (apply Hown; reflexivity).
     constructor; simx; try apply S.
     + rewrite (sim_mu _ _ S), Hmu, Epc. reflexivity.
     + intros x. rewrite (sim_threads _ _ S x). unfold upd. destruct (Nat.eqb_spec x t) as [->|Hne]; [|reflexivity].
